@@ -213,7 +213,7 @@ def emit_module(classes: list[dict], postponed: bool, uid: int) -> tuple[str, Em
     head = ("from __future__ import annotations\n" if postponed else "") + (
         "import enum\nfrom dataclasses import dataclass, field\n"
         "from typing import Any, Literal, Mapping, NewType, Optional, Sequence, Union\n"
-        "from pyoak.node import ASTNode\n\n"
+        "from pyoak.node import ASTNode\nfrom pyoak.origin import NO_ORIGIN, Origin\n\n"
         "class Color(enum.Enum):\n    RED = 'red'\n    GREEN = 'green'\n\n"
         f"@dataclass(frozen=True)\nclass NodeA_{uid}(ASTNode):\n    n: int = 0\n\n"
         f"@dataclass(frozen=True)\nclass NodeB_{uid}(ASTNode):\n    n: int = 0\n\n"
@@ -236,6 +236,7 @@ class Module:
         self.src = src
         sys.modules[self.name] = self.mod
         self.error: BaseException | None = None
+        self.extra_modules: list[str] = []
         try:
             exec(compile(src, self.mod.__file__, "exec", dont_inherit=True), self.mod.__dict__)
         except BaseException as e:  # noqa: BLE001
@@ -255,6 +256,8 @@ class Module:
             for k in [k for k in table if getattr(k, "__name__", str(k)).endswith(suffix)]:
                 del table[k]
         sys.modules.pop(self.name, None)
+        for n in self.extra_modules:
+            sys.modules.pop(n, None)
         _CREATED_SINCE_CLEAR[0] += 1
         if _CREATED_SINCE_CLEAR[0] >= 300:
             _CREATED_SINCE_CLEAR[0] = 0
@@ -263,6 +266,27 @@ class Module:
             for v in vars(TY).values():
                 if hasattr(v, "cache_clear"):
                     v.cache_clear()
+
+
+def foreign_subclass(mod: Module, base_name: str, postponed: bool) -> Any:
+    """an empty subclass of `base_name`, defined in ANOTHER module in which the names of the first
+    module's node classes (and of its enum) are bound to unrelated non-node objects. Returns the
+    class; `mod.close()` also removes its traces (same uid suffix)."""
+    uid = mod.uid
+    name = f"pbt_adhoc_{uid}_other"
+    shadows = "".join(f"{n}_{uid} = {v}\n" for n, v in
+                      (("NodeB", "int"), ("NodeSub", "str"), ("Later", "dict"), ("FalsyNode", "bytes")))
+    src = (("from __future__ import annotations\n" if postponed else "")
+           + "import sys\nfrom dataclasses import dataclass\n"
+           + f"_B = sys.modules['pbt_adhoc_{uid}'].{base_name}_{uid}\n"
+           + f"class NodeA_{uid}:\n    pass\n" + shadows + "Color = float\nOptional = list\n"
+           + f"@dataclass(frozen=True)\nclass Foreign{base_name}_{uid}(_B):\n    pass\n")
+    m = types.ModuleType(name)
+    m.__file__ = f"<{name}>"
+    sys.modules[name] = m  # stays importable until mod.close(), like a real module
+    mod.extra_modules.append(name)
+    exec(compile(src, m.__file__, "exec", dont_inherit=True), m.__dict__)
+    return m.__dict__[f"Foreign{base_name}_{uid}"]
 
 
 def new_uid() -> int:
